@@ -955,8 +955,13 @@ def argsort(x, axis=-1, kind=None):
     if n <= 1:
         return SymArray(_obj(list(range(n))), _I8)
     ctx = core.Ctx.cur
-    p = [core.fresh("int", "perm") for _ in range(n)]
     z3 = core.z3
+    if not _concrete_cells(cells):
+        # already strictly increasing under the path condition?  then the sorting permutation is unique: identity
+        inc = z3.And([lift(_cmp(cells[i], cells[i + 1], "<")) for i in range(n - 1)])
+        if not ctx._feasible(z3.Not(inc)):
+            return SymArray(_obj(list(range(n))), _I8)
+    p = [core.fresh("int", "perm") for _ in range(n)]
     ctx.add_side(z3.And([z3.And(pi.e >= 0, pi.e < n) for pi in p]))
     ctx.add_side(z3.Distinct(*[pi.e for pi in p]))
     keys = [_select(pi, cells) for pi in p]
